@@ -9,6 +9,8 @@ if [ -n "$(git -C $R status --porcelain)" ]; then echo "$R has local changes; re
 fail=0
 for d in seeded/*/; do
   name=$(basename $d)
+  # SEEDS=<extended regex> restricts the run to the seeds whose name matches
+  if [ -n "${SEEDS:-}" ] && ! echo "$name" | grep -Eq "$SEEDS"; then continue; fi
   prop=$(python3 -c "import json;m=json.load(open('$d/meta.json'));print(m.get('check_property',m['property']))")
   [ "$name" = "C12" ] && prop="C12"
   git -C $R apply $d/patch.diff || { echo "MISS $name: patch does not apply"; fail=1; continue; }
